@@ -347,6 +347,7 @@ fn refit_plan(mapping: &[u8], plan: &SinkPlan, class: &str) -> Option<SinkPlan> 
 }
 
 pub fn minimise(v: &Violation) -> Violation {
+    start_minimise_clock(40);
     let Some(mapping) = bytes_from_json(&v.case["mapping"]) else { return v.clone() };
     let Some(mut plan) = SinkPlan::from_json(&v.case["plan"]) else { return v.clone() };
     let class = v.class.clone();
@@ -495,14 +496,40 @@ pub fn main(env: &Env) -> i32 {
         let plans = 64u64;
         rep.rule = format!(
             "{} seeded runs; each run: swarm-configured mapping (0..12 classes x 0..16 members) + {} seeded multi-fault plans (cap drawn from {{inf,1,2-3,4-8,9-16,17-64}}, \
-             1..6 faults from a per-run random subset of kinds, biased to first/last calls, 1/8 with a disk capacity); plus the quick tier's enumeration on 40 mappings and corpus files < 40 KB. \
+             1..6 faults from a per-run random subset of kinds, biased to first/last calls, 1/8 with a disk capacity); plus the quick tier's enumeration on 40 mappings and corpus files < 40 KB, plus 2 huge mappings (> 65 536 classes and members) under coarse chunk caps (4096, 65 536, 65 537, 2^20, inf) with single faults on the first 12 calls and disk-full at 4 capacities. \
              distinct_nontrivial = distinct (mapping, plan) digests in which a fault fired or the cap truncated a call (the digest set is capped at 4 million entries per run, so this is a lower bound).",
             n, plans
         );
         let corpus: Vec<(String, Vec<u8>)> = gen::corpus(false).into_iter().filter(|(_, b)| b.len() < 40_000).collect();
         let n_enum = 40 + corpus.len() as u64;
-        let r = run_indexed(n + n_enum, env.workers, 4, |i, st, vs| {
-            if i < n {
+        let n_huge = 2u64;
+        let r = run_indexed(n + n_enum + n_huge, env.workers, 4, |i, st, vs| {
+            if i >= n + n_enum {
+                // scale: several MiB per section, a handful of coarse plans
+                let mut rng = Rng::new(run_seed(seed, "C15.huge", i));
+                let m = gen::gen_huge(&mut rng);
+                if let Ok(canon) = canon_of(&m) {
+                    let layout = Header::read(&canon).map(|h| Layout::of(&h));
+                    let cx = Ctx { mapping: &m, canon: &canon, layout, mdig: digest_bytes(&m), run: i };
+                    let mut nontrivial = 0;
+                    st.inc("mappings");
+                    st.inc("huge_mappings");
+                    let calls = run_write(&m, &SinkPlan::default()).calls;
+                    for cap in [None, Some(4096usize), Some(65_536), Some(65_537), Some(1 << 20), Some(7 * 1024 + 3)] {
+                        check_one(&cx, &SinkPlan { cap, ..Default::default() }, st, vs, &mut nontrivial);
+                        for at in 0..calls.min(12) {
+                            for kind in [FaultKind::Short(0x9E37_79B9), FaultKind::Interrupted(2), FaultKind::Hard(ErrK::StorageFull, true), FaultKind::Zero(false)] {
+                                check_one(&cx, &SinkPlan { cap, faults: vec![Fault { at, kind }], disk_capacity: None }, st, vs, &mut nontrivial);
+                            }
+                        }
+                    }
+                    for c in [canon.len() / 3, canon.len() - 1, 65_536, 1 << 20] {
+                        check_one(&cx, &SinkPlan { cap: Some(1 << 16), faults: vec![], disk_capacity: Some(c.min(canon.len() - 1)) }, st, vs, &mut nontrivial);
+                    }
+                    st.keyed_max(cx.mdig, nontrivial);
+                    st.run_done(cx.mdig);
+                }
+            } else if i < n {
                 let mut rng = Rng::new(run_seed(seed, "C15.explore", i));
                 let (_cfg, m) = gen::gen_case(&mut rng, 12, 16);
                 explore_mapping(i, &mut rng, &m, plans, st, vs);
